@@ -1,19 +1,66 @@
 """C12 - linear solvers, inverses and factorisations satisfy their defining equations.
 
-(M)  spec/LinAlg.tla over spec/Rat.tla: exact Inverse / Det (Gauss-Jordan with row exchange AND Laplace expansion, TLC checks they
-     agree and Det(AB) = Det(A)Det(B)) / Solve / LeastSquares / PseudoInverse over the rationals, with the theorems A A^-1 = I,
-     A x = b, normal equations, four Penrose conditions checked on every enumerated matrix; plus models of the library's two
-     elimination schemes on the zero pattern (NoPivotOK = MatrixInversion, PrePivotOK = SolveLSE, constant Pivoting): TLC shows
-     that without exchange a non-singular matrix exists whose elimination divides by zero, and that the repaired scheme is total.
+(M)  spec/LinAlg.tla over spec/Rat.tla: exact Inverse / Det / Solve / LeastSquares / PseudoInverse over the rationals.  The determinant has
+     THREE independent definitions that TLC proves equal on every enumerated matrix: Gauss-Jordan with row exchange (product of pivots,
+     DetOf), Laplace expansion (Lap - what MatrixDeterminant does) and the fraction-free Bareiss LU elimination over the integers (BDet =
+     sign * product of the LU pivots u_kk = p_k / p_(k-1); theorem BareissAgree), plus Det(AB) = Det(A)Det(B) (DetMul).  Theorems A A^-1 = I =
+     A^-1 A, A x = b, normal equations, four Penrose conditions, symmetric input => symmetric inverse (SymLaw), SPD input => all pivots
+     positive without exchange (SpdLaw).  Models of the library's two elimination schemes on the zero pattern (NoPivotOK = the old
+     MatrixInversion, PrePivotOK = the old SolveLSE, constant Pivoting): TLC shows that without exchange a non-singular matrix exists whose
+     elimination divides by zero, and that the repaired scheme is total.
 (GEN/replay, mode 2)  TLC enumerates all 1x1/2x2 over -2..2, all 3x3 over {0,1}, all 3x3/4x4 permutation, unit-triangular and
-     permuted-triangular 0/1 matrices (thorough: all 262,144 3x3 over -1..2, by residue classes) and prints each with its exact
-     determinant, inverse, solution, least-squares coefficients and pseudo-inverse; harness/c12_replay.c runs the six routines of the
-     library on every case (at scale 1 and 2^-14) and compares with the rationals (1e-9 * cond).
+     permuted-triangular 0/1 matrices, and the structured cases the quantifier names: all 3x3 (4x4 by residue class) diagonal matrices over
+     {-2,-1,1,2,3}, SPD matrices L D L' (3x3) / L L' (4x4), triangular with non-unit diagonal, all symmetric 3x3 over -1..1, 5x5 permutations
+     (thorough: all 262,144 3x3 over -1..2 by residue classes, every residue of the 4x4 / 5x5 families) and prints each with its exact
+     determinant, inverse, solution, least-squares coefficients and pseudo-inverse; harness/c12_replay.c runs the six routines of the library
+     on every case at scale 1 and 2^-14, every third case also at 2^-34 and 2^30, every third case at a NON-DYADIC unit (0.1, 1/3, 1e-6, 1e6),
+     each call into a fresh output AND into an already sized output holding stale numbers, and compares with the rationals (1e-9 * cond).
 (V)  variant agreement: the model's counterexample is looked up among the replayed cases: a violation is only reported with the failing
      run of the real library.
-(validate, EXPLORATION part)  harness/c12_trace.c: generated matrices 1..12 (cond <= 1e6; SPD, diagonal, permutation, zero leading
-     minors, triangular, structured, rectangular), each routine call in a child process, residuals of the defining equations quantised
-     and checked by TLC against spec/TraceLinAlg.tla (bounds relative to |A|, scaled by cond; integer cases exactly).
+(validate, ledger)  harness/c12_trace.c executes a deterministic STRATIFIED plan: 15 square classes (SPD, symmetric indefinite, diagonal,
+     permutation, zero leading minors, triangular, Toeplitz, general, small integer, graded, symmetric permutation, repeated eigenvalues in
+     every multiplicity pattern, large common offset, non-representable entries, integer permuted unit-triangular) at EVERY size 1..12 and
+     at whole-matrix scales 2^k, 1e-6, 1e6 (solution magnitudes 1, 1e-6, 1e6); every rectangular shape m > n in 1..12 (12x1, n = p +- 1 ..)
+     for OLS / Penrose / SVDlapack and its transpose for SVDlapack, with duplicate rows / a constant column; "history" blocks in which ONE
+     routine is called ten times in ONE process on changing sizes, shapes and magnitudes into the SAME output objects; rank-deficient SVD
+     inputs (outside the quantifier: EXTRA only).  One child per block with per-call crash attribution under ASan/UBSan (half of the
+     processes with the quarantine off, so freed addresses are reused at once).  Residuals of the defining equations are quantised and
+     judged by TLC against spec/TraceLinAlg.tla (bounds relative to |A| - scale free - and scaled by the logged cond); integer cases are
+     judged EXACTLY by TLC (InvInt: MulI(A, inv) = I; DetInt: det = BDet(A) up to 8x8; DetMulInt: the three determinants and dp = da db).
+
+CLAUSES of the statement -> who decides them (model theorem | replay oracle | trace action : event)
+  inverse routines return M^-1, M M^-1 = I,        LinAlg!InverseLaw | exact Inverse(A) per enumerated case (MatrixInversion, MatrixLUInversion, all
+    also when leading entries are zero              scales, fresh + stale output) | TInv : Inv (max|AX - I| <= TolAlg max(1, cond/100)), TInvInt : InvInt (exact)
+  determinant = product of pivots of an            LinAlg!BareissAgree, DetAgree (three definitions agree) | exact integer determinant per case |
+    independent LU factorisation                    TDetInt : DetInt (det = BDet(A) = sign * prod of LU pivots, computed by TLC, n <= 8; Lap for n <= 4),
+                                                    TDet : Det (against the dgetrf pivots, relative to prod_i |row_i|_1, n <= 8)
+  determinant is multiplicative                    LinAlg!DetMul | - | TDetMulInt : DetMulInt (da = BDet(A), db = BDet(B), dp = BDet(A B), dp = da db exactly),
+                                                    TDetMul : DetMul (general / permutation / diagonal / triangular / SPD partner)
+  linear-system solver returns the solution        LinAlg!SolveLaw | exact Solve(A, b) | TSolve : Solve (backward <= TolAlg, forward <= TolAlg max(1, cond/100))
+  least-squares solver returns the solution        LinAlg!LsLaw (normal equations) | exact LeastSquares(X, y) on the tall (n+1) x n case | TOls : Ols (tall incl. 12x1, and square)
+  full column rank => four Penrose conditions      LinAlg!PenroseLaw | exact PseudoInverse(X) | TPenrose : Penrose (r1..r4 <= TolAlg max(1, cond^2/1e4), cond <= 1e3)
+  symmetric => pairs with A v = lambda v           - | - | TEig : Eig (n pairs, every v # 0, max_k |A v_k - l_k v_k| / (|A||v_k|) <= TolAlg, PAIRWISE: repeated
+                                                    eigenvalues admitted, no uniqueness / orthogonality implied); Impl layer: sum of eigenvalues = trace
+  every matrix: singular values >= 0 and           - | - | TSvd : Svd (shapes multiply, sigma >= 0, |U S VT - A| <= TolAlg |A|, diag(S) = the singular values of A in any
+    the factors multiply back                       order (oracle dgesvd), nothing off the diagonal); Impl layer: economy shapes, orthonormal U / VT
+  quantifier (sizes 1..12, cond <= 1e6, det <= 8)  TMat : Mat (InQuantifier), NormalEqOK (m >= n, cond <= 1e3 for the normal-equation routines), TDet (n <= 8)
+
+INPUT CLASSES (INPUT-CLASSES.md), before -> now (counted per run in coverage.classes)
+  K1 shapes      before: square 1..11 in the quick tier (12 only thorough), random tall + its transpose.  now: every class at every size 1..12; every m > n
+                 pair incl. 12x1 / 1x12 / n = p +- 1 for SVDlapack (both orientations), OLS and Penrose (tall; wide is outside "full column rank")
+  K2 blocks      inner dimensions 3,4,5 / 7,8,9 / 11,12 of the unrolled MatrixDotProduct (OLS, Penrose: rows and columns) at every class
+  K3 location    before: not emitted.  now: class "offset" (c 1 1' with |c| up to 1e4 added; the measured cond decides admission and the bound)
+  K4 magnitude   before: 2^-10..2^10 (trace), 2^-34..2^30 for the six replayed routines only.  now: 1e-6 and 1e6 for EVERY routine incl. EVectEval / SVDlapack,
+                 solution / response magnitudes 1e-6, 1, 1e6; all residuals are relative, the bounds do not change
+  K5 constants   before: not emitted.  now: class "nonrep" (0.1 k, k/3, 1e-3 k, 0.7 k on permutation / unit-triangular / integer patterns); replay at units 0.1, 1/3
+  K6 processors  EXCLUDED: none of the eight routines reaches an MT_* kernel; the four recording processes force nproc 1, 2, 3, 5 (must not matter)
+  K7 histories   before: sized stale outputs of the same shape for five replayed routines only, one fork per call in the trace direction.  now: history blocks for
+                 all eight routines (size changes AND repeated sizes, magnitudes alternating 1e6 / 1e-6), sized-stale outputs (right shape, one row / column more) for
+                 every routine with an output, ASan quarantine off in half of the processes
+  K8 degenerate  before: one repeated pair in 40 % of the symmetric cases.  now: c I, multiplicity n-1 / pairs / two clusters (rotated and exactly diagonal),
+                 symmetric permutations (+-1), duplicate row / constant column in tall inputs; rank-deficient and zero matrices for the SVD as EXTRA only
+  K9 missing     EXCLUDED: the statement says nothing about the missing-value code; generated entries stay far from 99999999
+  K10 labels     not applicable (no labels)
 """
 import os, re, shutil, collections
 from concurrent.futures import ThreadPoolExecutor
@@ -23,20 +70,35 @@ from vf.core import InfraError
 
 LEVEL = "model_checking"
 READY = True
-TECHNIQUE = ("TLC as exact rational oracle (LinAlg.tla: inverse, determinant by elimination and by Laplace expansion, solve, least squares, "
-             "pseudo-inverse; pivot case analysis of the library's two elimination schemes) with every enumerated small matrix replayed through the "
-             "real routines; plus TLC trace validation (TraceLinAlg.tla) of quantised residuals of inversion / determinant / solve / Penrose / eigen / SVD "
-             "on generated matrices up to 12x12, each library call isolated in a child process under ASan/UBSan")
+TECHNIQUE = ("TLC as exact rational / integer oracle (LinAlg.tla: inverse, determinant by elimination, by Laplace expansion and by fraction-free Bareiss LU - "
+             "three definitions proved equal - solve, least squares, pseudo-inverse; pivot case analysis of the library's two elimination schemes) with every "
+             "enumerated small matrix (all small, permutation, triangular, zero-leading-minor, diagonal, SPD, symmetric families) replayed through the real "
+             "routines at dyadic and non-dyadic scales into fresh and stale outputs; plus TLC trace validation (TraceLinAlg.tla) of quantised residuals of "
+             "inversion / determinant / multiplicativity / solve / least squares / Penrose / eigen / SVD on a stratified plan (15 classes x sizes 1..12 x scales "
+             "2^k, 1e-6, 1e6; all rectangular shapes; in-process call histories with shared outputs) with exact integer judgements (InvInt, DetInt, DetMulInt), "
+             "each block isolated in a child process under ASan/UBSan")
 LEVEL_TEXT = ("Inverse, determinant, linear-system, least-squares and pseudo-inverse routines are compared with exact rational results computed by "
-              "TLC for every matrix of the enumerated small scope (exhaustive over the stated families), and the pivoting case analysis is "
-              "model-checked; the eigen-decomposition / SVD part and the sizes up to 12 are EXPLORATION: sampled matrices whose residuals, computed by "
-              "the harness in double precision, are validated by TLC against tolerance bounds.")
+              "TLC for every matrix of the enumerated small scope (exhaustive over the stated families, which include every structured case the "
+              "quantifier names), and the pivoting case analysis is model-checked; determinants of integer matrices up to 8x8 and their products are "
+              "judged exactly by TLC (Bareiss LU pivots); the eigen-decomposition / SVD part and the sizes up to 12 are a stratified LEDGER: generated "
+              "matrices whose residuals, computed by the harness in double precision, are validated by TLC against tolerance bounds of the spec.")
 LEVEL_NOTE = ("model_checking applies to MatrixInversion, MatrixLUInversion, MatrixDeterminant, SolveLSE, OrdinaryLeastSquares, "
-              "MatrixMoorePenrosePseudoinverse on the small exhaustive scope (TLC oracle). EVectEval, SVD, SVDlapack and every size above 4 are "
-              "exploration: residual evaluation and quantisation are trusted harness code, LAPACK dgesdd/dgetrf called directly are independent "
-              "oracles for cond and det. Trusts TLC, ASan/UBSan.")
+              "MatrixMoorePenrosePseudoinverse on the small exhaustive scope (TLC oracle) and to the exact integer events of the ledger. EVectEval, SVD, "
+              "SVDlapack and every size above 5 are ledger / exploration: residual evaluation and quantisation are trusted harness code, LAPACK dgesvd / "
+              "dgetrf called directly are independent oracles for cond, the singular values and det. Input classes left out on purpose: K6 (no MT kernel is "
+              "reachable from these routines; nproc is forced to 1, 2, 3, 5 as a no-op), K9 (the statement does not mention the missing-value code; entries "
+              "stay far from 99999999), K10 (no labels); wide inputs for OLS / pseudo-inverse (not of full column rank); cond > 1e3 for the normal-equation "
+              "routines (the spec's bound TolAlg * cond^2 / 1e4 stops being meaningful: cond^2 <= 1e6 is kept); rank-deficient SVD inputs are outside the "
+              "quantifier (cond = inf) and reported as EXTRA-FINDING only. Trusts TLC, ASan/UBSan.")
 
-SMALL = ["all1", "all2", "bin3", "perm3", "perm4", "tri3", "tri4", "ptri3"]
+SMALL_A = ["all1", "all2"]
+SMALL_B = ["bin3", "perm3", "perm4", "tri3", "tri4", "ptri3"]
+STRUCT_A = ["diag3", "spd3", "trid3", "spd4"]
+STRUCT_B = ["sym3"]
+STRUCT_C = ["perm5", "diag4"]
+FAMILY_CLASS = {"perm3": "permutation", "perm4": "permutation", "perm5": "permutation", "tri3": "triangular", "tri4": "triangular", "trid3": "triangular",
+                "ptri3": "zero-leading-minor", "ptri4": "zero-leading-minor", "diag3": "diagonal", "diag4": "diagonal", "spd3": "spd", "spd4": "spd", "sym3": "symmetric", "sym4": "symmetric"}
+SCALE_NAME = {0: "1", 14: "2^-14", 34: "2^-34", -30: "2^30", 1000: "0.1", 1001: "1/3", 1002: "1e-6", 1003: "1e6"}
 
 
 def _case_line(i, e):
@@ -103,7 +165,7 @@ def _replay_cases(ctx, exe, rd, tag, cases):
             raise InfraError("c12_replay died rc=%d without Done/Crash line on %s: %s" % (h.rc, tag, h.err[-800:]))
         cr = crash[0]
         c = cases[cr["id"]]
-        ctx.violation("LINALG:%s:square-crash" % cr["routine"], "%s on A=%s * 2^-%d: process died (%s)\n%s" % (cr["routine"], c["A"], cr["exp"], h.san or "rc=%d" % h.rc, h.err[:1200]),
+        ctx.violation("LINALG:%s:square-crash" % cr["routine"], "%s on A=%s * %s: process died (%s)\n%s" % (cr["routine"], c["A"], SCALE_NAME.get(cr["exp"], cr["exp"]), h.san or "rc=%d" % h.rc, h.err[:1200]),
                       dict(kind="case", case=c, routine=cr["routine"], exp=cr["exp"]))
         start = cr["id"] + 1
         rounds += 1
@@ -111,8 +173,8 @@ def _replay_cases(ctx, exe, rd, tag, cases):
             raise InfraError("c12_replay keeps crashing on %s" % tag)
     for f in fails:
         c = cases[f["id"]]
-        ctx.violation(_sig_replay(f["routine"], f["exp"], c), "%s on A=%s * 2^-%d: entry (%d,%d) is %s, exact %s (nopivot-ok=%s prepivot-ok=%s leading-zero=%s)" % (
-            f["routine"], c["A"], f["exp"], f["i"], f["j"], f["got"], f["want"], c.get("nopiv"), c.get("prepiv"), c.get("lead0")),
+        ctx.violation(_sig_replay(f["routine"], f["exp"], c), "%s on A=%s * %s: entry (%d,%d) is %s, exact %s (nopivot-ok=%s prepivot-ok=%s leading-zero=%s)" % (
+            f["routine"], c["A"], SCALE_NAME.get(f["exp"], f["exp"]), f["i"], f["j"], f["got"], f["want"], c.get("nopiv"), c.get("prepiv"), c.get("lead0")),
             dict(kind="case", case=c, routine=f["routine"], exp=f["exp"]))
     return fails, nruns
 
@@ -127,12 +189,19 @@ def _parse_witness(text):
 def _run_model_and_replay(ctx, rd, lib):
     exe = build.build_harness("c12r", ["c12_replay.c"], lib)
     s = ctx.seed
-    plan = [("gen_small", _gen_cfg(rd, "g_small.cfg", SMALL, 1, 0))]
-    plan += [("gen_ptri4_%d" % i, _gen_cfg(rd, "g_p4_%d.cfg" % i, ["ptri4"], 4, i)) for i in range(4)]
+    allinv = ("Theorems", "ElimDefined", "SolveDefined")
+    plan = [("gen_small_a", _gen_cfg(rd, "g_small_a.cfg", SMALL_A, 1, 0, inv=allinv)), ("gen_small_b", _gen_cfg(rd, "g_small_b.cfg", SMALL_B, 1, 0, inv=allinv))]
+    plan += [("gen_ptri4_%d" % i, _gen_cfg(rd, "g_p4_%d.cfg" % i, ["ptri4"], 4, i, inv=allinv)) for i in range(4)]
+    # the structured cases the quantifier names: diagonal, SPD, triangular with a non-unit diagonal, symmetric, 5x5 permutations
+    plan += [("gen_struct_a", _gen_cfg(rd, "g_st_a.cfg", STRUCT_A, 1, 0, inv=allinv)), ("gen_struct_b", _gen_cfg(rd, "g_st_b.cfg", STRUCT_B, 1, 0, inv=allinv))]
+    res5 = [s % 4] if ctx.quick else range(4)
+    plan += [("gen_struct_c_%d" % i, _gen_cfg(rd, "g_st_c_%d.cfg" % i, STRUCT_C, 4, i, inv=allinv)) for i in res5]
     if not ctx.quick:
         # all 262,144 3x3 matrices over -1..2 in 16 residue classes (exhaustive together); the heavier least-squares / Penrose theorems
-        # are checked on the other families, here the determinant, inverse and solve laws
-        plan += [("gen_all3_%d" % i, _gen_cfg(rd, "g_a3_%d.cfg" % i, ["all3"], 16, i, inv=("DetAgree", "DetMul", "InverseLaw", "SolveLaw"))) for i in range(16)]
+        # are checked on the other families, here the determinant (three definitions), inverse and solve laws
+        plan += [("gen_all3_%d" % i, _gen_cfg(rd, "g_a3_%d.cfg" % i, ["all3"], 16, i, inv=("DetAgree", "BareissAgree", "DetMul", "InverseLaw", "SolveLaw", "SymLaw"))) for i in range(16)]
+        # a quarter of the 59,049 symmetric 4x4 matrices over -1..1 (4 of 16 residue classes, rotating with the seed)
+        plan += [("gen_sym4_%d" % i, _gen_cfg(rd, "g_s4_%d.cfg" % i, ["sym4"], 16, i, inv=("DetAgree", "BareissAgree", "InverseLaw", "SolveLaw", "SymLaw"))) for i in sorted({(s + 4 * q) % 16 for q in range(4)})]
     mc = [("mc_linalg", "MC_LinAlg_quick.cfg" if ctx.quick else "MC_LinAlg_thorough.cfg"), ("mc_nopivot", "MC_LinAlg_nopivot.cfg"), ("mc_prepivot", "MC_LinAlg_prepivot.cfg")]
 
     def one(item):
@@ -159,7 +228,21 @@ def _run_model_and_replay(ctx, rd, lib):
                 zp = bool(c["ns"]) and not c["nopiv"]
                 ctx.case(("R", c["fam"], c["n"], c["ns"], c.get("nopiv"), c.get("prepiv"), c.get("lead0")), zp or not c["ns"])
                 stats["cases"] += 1
-                stats["runs"] = stats["runs"] + 2
+                # the scales c12_replay.c runs case i at (same rule as in the driver), each with fresh AND already sized, stale outputs
+                scales = [0, 14] + ([34, -30] if i % 3 == 0 else []) + ([1000 + (i // 3) % 4] if i % 3 == 1 else [])
+                stats["runs"] += len(scales)
+                for e in scales:
+                    ctx.cls("K4:replay-scale-" + SCALE_NAME[e])
+                    if e >= 1000:
+                        ctx.cls("K5:replay-non-dyadic-unit")
+                ctx.cls("K1:replay-square-%d" % c["n"])
+                if c["ns"]:
+                    ctx.cls("K7:replay-sized-stale-output", len(scales))
+                    ctx.cls("K1:replay-tall-(n+1)xn")
+                    if c.get("lead0"):
+                        ctx.cls("S:replay-leading-zero")
+                if c["fam"] in FAMILY_CLASS:
+                    ctx.cls("S:replay-" + FAMILY_CLASS[c["fam"]])
                 if c["ns"]:
                     stats["nonsingular"] += 1
                     stats["nopiv0"] += 0 if c["nopiv"] else 1
@@ -225,107 +308,273 @@ def _needs_exchange(mat):
 
 
 def _sig_trace(ev, mat):
+    """<AREA>:<routine>:<what>; a call into an output that was already sized / left by an earlier call is its own failure class"""
     e = ev["e"]
     rt = ev.get("routine", "?")
+    ru = ""
     if e == "Crash":
         return "LINALG:%s:%s-crash" % (rt, ev.get("shape", "square"))
+    if ev.get("reuse", 0) and e in ("Inv", "InvInt", "Solve", "Ols", "Penrose", "Eig", "Svd"):
+        return "LINALG:%s:reused-output" % rt
     if e == "Svd":
-        what = "shape" if not ev["shp"] else ("sigma" if not ev["sig"] else "recon")
-        return "LINALG:%s:%s-%s" % (rt, ev["shape"], what)
+        what = "shape" if not ev["shp"] else ("sigma" if not ev["sig"] else ("recon" if ev["recon"] > 10000 else "singular-values"))
+        return "LINALG:%s:%s-%s%s" % (rt, ev["shape"], what, ru)
     if e in ("Inv", "InvInt"):
-        return "LINALG:%s:%s" % (rt, "zero-pivot" if mat and mat.get("lead0") else ("mid-pivot" if mat and _needs_exchange(mat) else "accuracy"))
+        return "LINALG:%s:%s%s" % (rt, "zero-pivot" if mat and mat.get("lead0") else ("mid-pivot" if mat and _needs_exchange(mat) else "accuracy"), ru)
     if e == "Solve":
-        return "LINALG:SolveLSE:%s" % ("zero-pivot" if mat and mat.get("lead0") else ("mid-pivot" if mat and (mat.get("class") == "zlm" or _needs_exchange(mat)) else "accuracy"))
-    if e in ("Det", "DetInt", "DetMul"):
+        return "LINALG:SolveLSE:%s%s" % ("zero-pivot" if mat and mat.get("lead0") else ("mid-pivot" if mat and (mat.get("class") == "zlm" or _needs_exchange(mat)) else "accuracy"), ru)
+    if e in ("Det", "DetInt"):
         return "LINALG:MatrixDeterminant:square"
+    if e in ("DetMul", "DetMulInt"):
+        return "LINALG:MatrixDeterminant:multiplicative"
     if e == "Ols":
-        return "LINALG:OrdinaryLeastSquares:rect-tall"
+        return "LINALG:OrdinaryLeastSquares:%s%s" % (ev.get("shape", "rect-tall"), ru)
     if e == "Penrose":
-        return "LINALG:MatrixMoorePenrosePseudoinverse:%s" % ev.get("shape", "square")
+        return "LINALG:%s:%s%s" % (rt, ev.get("shape", "square"), ru)
     if e == "Eig":
-        return "LINALG:EVectEval:square"
+        return "LINALG:EVectEval:square%s" % ru
     return "LINALG:trace:%s" % e
+
+
+SQUARE_CLASSES = ["spd", "symm", "diag", "perm", "zlm", "tri", "toeplitz", "general", "intsmall", "graded", "symperm", "repeig", "offset", "nonrep", "utri"]
+HIST_ROUTINES = ["MatrixInversion", "MatrixLUInversion", "MatrixDeterminant", "SolveLSE", "OrdinaryLeastSquares", "MatrixMoorePenrosePseudoinverse", "EVectEval", "SVDlapack"]
+EVENT_KINDS = ("Mat", "Inv", "InvInt", "Det", "DetInt", "DetMul", "DetMulInt", "Solve", "Ols", "Penrose", "Eig", "Svd")
+
+
+def _classes_of(mat, nproc):
+    """input-class tags (INPUT-CLASSES.md) of one logged input"""
+    m, n = mat["m"], mat["n"]
+    t = []
+    t.append("K1:" + ("1x1" if m == n == 1 else "square" if m == n else "tall" if m > n else "wide"))
+    if abs(m - n) == 1:
+        t.append("K1:n=p+-1")
+    if m > 1 and n == 1:
+        t.append("K1:single-column")
+    if n > 1 and m == 1:
+        t.append("K1:single-row")
+    for d in sorted({m, n}):
+        if d in (4, 8, 12):
+            t.append("K2:dim-multiple-of-4")
+        elif d in (3, 5, 7, 9, 11):
+            t.append("K2:dim-multiple-of-4+-1")
+    if mat["class"] == "offset":
+        t.append("K3:common-offset")
+    t.append("K4:scale-%s" % {"p2": "2^k", "1e-6": "1e-6", "1e6": "1e6"}[mat["sc"]])
+    if mat["shape"] == "square" and mat.get("xs"):
+        t.append("K4:solution-magnitude-%s" % ("1e-6" if mat["xs"] == 1 else "1e6"))
+    if mat["class"] == "nonrep":
+        t.append("K5:non-representable-entries")
+    t.append("K6:nproc%d" % nproc)
+    if mat["hist"]:
+        t.append("K7:history")
+    if mat["class"] in ("repeig", "symperm"):
+        t.append("K8:repeated-eigenvalues")
+    if mat.get("var") == 1:
+        t.append("K8:duplicate-row")
+    if mat.get("var") == 2:
+        t.append("K8:constant-column")
+    if mat["class"] == "rankdef":
+        t.append("K8:rank-deficient(outside-quantifier,extra)")
+    if mat["class"] in ("perm", "zlm", "tri", "spd", "diag", "utri", "symperm"):
+        t.append("S:%s" % {"perm": "permutation", "symperm": "permutation", "zlm": "zero-leading-minor", "utri": "zero-leading-minor", "tri": "triangular", "spd": "spd", "diag": "diagonal"}[mat["class"]])
+    return t
 
 
 def _run_validate(ctx, rd, lib, only=None):
     exe = build.build_harness("c12t", ["c12_trace.c"], lib)
-    nproc, nmat = (4, 108) if ctx.quick else (12, 648)
-    jobs = [[os.path.join(rd, "t%d.ndjson" % i), ctx.seed + 977 * i, nmat] for i in range(nproc)]
+    nparts = 4 if ctx.quick else 12
+    tier = 0 if ctx.quick else 1
     if only:
-        jobs = [[os.path.join(rd, "t0.ndjson"), only[0], only[1]]]
-    res = hrun.run_many(exe, jobs, timeout=1700, workers=6)
-    blocks, dropped = [], 0
+        tier, nparts = only[1], 1
+        jobs = [[os.path.join(rd, "t0.ndjson"), only[0], tier, 0, 1, only[2]]]
+    else:
+        jobs = [[os.path.join(rd, "t%d.ndjson" % i), ctx.seed, tier, i, nparts] for i in range(nparts)]
+    # odd parts run with ASan's quarantine off, so that a freed container's address is handed out again at once (K7: caches keyed on address)
+    san = hrun.SAN_ENV["ASAN_OPTIONS"]
+
+    def one(j):
+        return hrun.run(exe, j, timeout=1700, env={"ASAN_OPTIONS": san + (":quarantine_size_mb=0" if j[3] % 2 else "")})
+    with ThreadPoolExecutor(6) as ex:
+        res = list(ex.map(one, jobs))
+    blocks, dropped, crashes, plan = [], 0, 0, None
     for j, h in zip(jobs, res):
         ev = hrun.read_ndjson(j[0])
-        if h.rc != 0 or not ev or ev[-1].get("e") != "End":
+        if h.rc != 0 or not ev or ev[-1].get("e") != "End" or ev[0].get("e") != "Start":
             if h.timed_out:
                 raise InfraError("c12_trace timed out")
             raise InfraError("c12_trace parent died rc=%d (children are isolated, so this is the harness): %s" % (h.rc, h.err[-800:]))
         dropped += ev[-1]["dropped"]
-        if only:
-            ev = [e for e in ev if e.get("id") == only[2]]
+        crashes += ev[-1]["crashes"]
+        plan = ev[0]["plan"]
+        nproc = ev[0]["nproc"]
         for e in ev:
-            e["seed"], e["nmat"] = j[1], j[2]
+            e["seed"], e["tier"], e["nproc"] = j[1], tier, nproc
         blocks.append(ev)
     events = [e for b in blocks for e in b]
     kinds = collections.Counter(e["e"] for e in events)
-    if not only:
-        for k in ("Mat", "Inv", "InvInt", "Det", "DetInt", "DetMul", "Solve", "Ols", "Penrose", "Eig", "Svd"):
-            if kinds[k] == 0:
-                raise InfraError("validate direction vacuous: no %s event recorded" % k)
-    elif not events:
-        raise InfraError("replay: the recording no longer contains that matrix")
     mats = {}
     cur = None
+    per_routine_hist = collections.Counter()
+    sized = collections.Counter()
+    cover = collections.defaultdict(set)
     for e in events:
         if e["e"] == "Mat":
             cur = e
-            if not (1 <= e["cond"] <= 1000000):
-                raise InfraError("c12_trace logged a matrix outside the quantifier: %s" % e)
-            ctx.case(("V", e["class"], e["m"], e["n"], min(6, len(str(e["cond"]))), e["lead0"]), e["lead0"] == 1 or e["m"] != e["n"] or e["class"] in ("perm", "zlm", "tri"))
-        elif e["e"] not in ("Reset", "End"):
+            if e["q"] == 1 and not (1 <= e["cond"] <= 1000000):
+                raise InfraError("c12_trace logged a matrix outside the quantifier as inside: %s" % e)
+            ctx.case(("V", e["class"], e["m"], e["n"], min(6, len(str(e["cond"]))), e["lead0"], e["sc"], e["hist"]),
+                     e["lead0"] == 1 or e["m"] != e["n"] or e["class"] in ("perm", "zlm", "tri", "utri", "symperm", "repeig") or e["hist"] == 1 or e["sc"] != "p2")
+            for tag in _classes_of(e, e["nproc"]):
+                ctx.cls(tag)
+            cover[e["class"]].add((e["m"], e["n"]))
+        elif e["e"] not in ("Reset", "End", "Start"):
             mats[id(e)] = cur
+            if cur is not None and cur["hist"]:
+                per_routine_hist[e.get("routine")] += 1
+            if e.get("reuse") == 1:
+                sized[e.get("routine")] += 1
+                ctx.cls("K7:sized-stale-output")
+            if e["e"] in ("Ols", "Penrose") and cur is not None and not (cur["m"] >= cur["n"] and cur["cond"] <= 1000 and cur["q"] == 1):
+                raise InfraError("c12_trace ran %s outside its quantifier (full column rank, cond <= 1e3): %s" % (e["e"], cur))
+    if not only:
+        for k in EVENT_KINDS:
+            if kinds[k] == 0:
+                raise InfraError("validate direction vacuous: no %s event recorded" % k)
+        for c in SQUARE_CLASSES:
+            sizes = {m for m, n in cover[c]}
+            need = 6 if c == "intsmall" else (5 if c == "offset" else 9)       # (a size is missed only if all three sweeps drew cond > 1e6)
+            if len(sizes) < need:
+                raise InfraError("class %s reached only the sizes %s" % (c, sorted(sizes)))
+        for shape_class in ("tall", "wide"):
+            if len(cover[shape_class]) < 60:
+                raise InfraError("only %d distinct %s shapes recorded" % (len(cover[shape_class]), shape_class))
+        for want in ((12, 1), (2, 1), (12, 11)):
+            if want not in cover["tall"] or (want[1], want[0]) not in cover["wide"]:
+                raise InfraError("rectangular shape %sx%s (or its transpose) missing" % want)
+        for rt in HIST_ROUTINES:
+            if per_routine_hist[rt] < 8:
+                raise InfraError("history blocks of %s recorded only %d calls" % (rt, per_routine_hist[rt]))
+        if not cover["rankdef"]:
+            raise InfraError("no rank-deficient SVD input recorded")
+        if not any(e.get("routine") == "MatrixPseudoinversion" for e in events):
+            raise InfraError("no MatrixPseudoinversion call recorded")
+    elif not any(e["e"] not in ("Reset", "End", "Start") for e in events):
+        raise InfraError("replay: the recording no longer contains that plan item")
     for e in events:
-        if e["e"] == "Mat" and e["class"] in ("zlm", "tall") and e["n"] >= 3:
-            ctx.sample(dict(direction="validate", **e), 6)
+        if e["e"] == "Mat" and (e["class"] in ("zlm", "tall") and e["n"] >= 3 or e["hist"]):
+            ctx.sample(dict(direction="validate", **{k: v for k, v in e.items() if k != "A"}), 6)
+
+    bad_sigs = set()
 
     def on_reject(ev, idx, block):
         mat = mats.get(id(ev))
-        if ev["e"] == "Mat":
-            raise InfraError("Mat event rejected (outside the quantifier?): %s" % ev)
+        if ev["e"] in ("Mat", "Start"):
+            raise InfraError("%s event rejected (outside the quantifier?): %s" % (ev["e"], ev))
         sig = _sig_trace(ev, mat)
-        ctx.violation(sig, "%s on a %s matrix %sx%s (cond %s, generator class %s): recorded %s violates the bound / exact check of TraceLinAlg" % (
-            ev.get("routine"), ev.get("shape", "square"), mat and mat["m"], mat and mat["n"], mat and mat["cond"], mat and mat["class"], {k: v for k, v in ev.items() if k not in ("seed", "nmat")}),
-            dict(kind="trace", seed=ev.get("seed"), nmat=ev.get("nmat"), id=ev.get("id"), event=ev, matrix=mat))
-        return lambda e: e["e"] not in ("Reset", "Mat", "End") and _sig_trace(e, mats.get(id(e))) == sig
+        what = "%s on a %s matrix %sx%s (cond %s, generator class %s, scale %s, %s, output %s): recorded %s violates the bound / exact check of TraceLinAlg" % (
+            ev.get("routine"), ev.get("shape", "square"), mat and mat["m"], mat and mat["n"], mat and mat["cond"], mat and mat["class"], mat and mat["sc"],
+            "history block (one process, shared outputs)" if mat and mat["hist"] else "single call", {0: "fresh", 1: "already sized, stale numbers", 2: "left by the previous call"}.get(ev.get("reuse", 0)),
+            {k: v for k, v in ev.items() if k not in ("seed", "tier", "nproc")})
+        if ev.get("routine") == "MatrixPseudoinversion":
+            # the SVD-based pseudo-inverse is named in the anchors only (it sits on the internal SVD, a known finding): reported, never a verdict
+            bad_sigs.add(sig)
+            ctx.extra(sig.replace("LINALG:", "LINALG-EXTRA:"), what)
+            return lambda e: e.get("routine") == "MatrixPseudoinversion" and _sig_trace(e, mats.get(id(e))) == sig
+        if mat is not None and mat["q"] == 0:
+            # rank-deficient input: the statement says "every matrix", the quantifier bounds the condition number: reported, never a verdict
+            bad_sigs.add(sig)
+            ctx.extra(sig.replace("LINALG:", "LINALG-RANKDEF:"), what)
+            return lambda e: e["e"] not in ("Reset", "Mat", "End", "Start") and mats.get(id(e)) is not None and mats[id(e)]["q"] == 0 and _sig_trace(e, mats[id(e)]) == sig
+        bad_sigs.add(sig)
+        ctx.violation(sig, what, dict(kind="trace", seed=ev.get("seed"), tier=ev.get("tier"), item=ev.get("id"), event=ev, matrix=mat))
+        return lambda e: e["e"] not in ("Reset", "Mat", "End", "Start") and _sig_trace(e, mats.get(id(e))) == sig and not (mats.get(id(e)) or {}).get("q") == 0
 
     def val(i):
         sub = _Sub(ctx)
         trace.check_trace(sub, "TraceLinAlg", "Trace_LinAlg.cfg", "Trace_LinAlg_prop.cfg", blocks[i], on_reject, drop="event",
-                          label="trace_linalg_%d" % i, timeout=1500, max_rounds=30)
+                          label="trace_linalg_%d" % i, timeout=1500, max_rounds=40)
         return sub
     with ThreadPoolExecutor(4 if ctx.quick else 6) as ex:
         for sub in ex.map(val, range(len(blocks))):
             sub.merge()
     ctx.traces(kinds["Reset"])
-    ctx.steps["validate_exploration"] = dict(matrices=kinds["Mat"], events=len(events), dropped_outside_quantifier=dropped,
-                                             per_event={k: v for k, v in kinds.items()})
-    if not ctx.quick and not only:
+    ctx.steps["validate"] = dict(plan_items=plan, matrices=kinds["Mat"], events=len(events), dropped_outside_quantifier=dropped, child_crashes=crashes,
+                                 per_event={k: v for k, v in kinds.items()}, history_calls=dict(per_routine_hist), calls_into_sized_stale_outputs=dict(sized),
+                                 shapes_per_class={k: len(v) for k, v in sorted(cover.items())})
+    if not only:
+        _binding_selftests(ctx, events, mats, bad_sigs)
+
+
+def _binding_selftests(ctx, events, mats, bad_sigs):
+    """corrupt ONE recorded field of each event kind / layer: TLC must reject (the trace spec is bound to what the harness logs).
+    Each test runs on the minimal trace Reset, Mat, event taken from an event the main validation ACCEPTED."""
+    def window(kind, pred=lambda e: True):
+        for e in events:
+            if e["e"] == kind and pred(e):
+                if kind == "Mat":
+                    return [dict(e="Reset", id=e["id"], hist=0), e]
+                mat = mats.get(id(e))
+                if mat is None or mat["q"] != 1 or _sig_trace(e, mat) in bad_sigs or (kind == "Svd" and e.get("routine") == "SVD"):
+                    continue
+                return [dict(e="Reset", id=e["id"], hist=0), mat, e]
+        raise InfraError("binding self-test: no accepted %s event in the recording" % kind)
+
+    def setter(kind, field, fn, pred=lambda e: True):
         def corrupt(ev):
             for e in ev:
-                if e["e"] == "Inv":
-                    e["r"] = min(2000000000, (e["r"] + 1) * 1000000)
+                if e["e"] == kind and pred(e):
+                    e[field] = fn(e[field])
                     return True
             return False
-        trace.binding_selftest(ctx, "TraceLinAlg", "Trace_LinAlg_prop.cfg", [e for e in blocks[0] if e["e"] in ("Reset", "Mat", "Inv")][:60], corrupt, "binding_inv")
+        return corrupt
+    big = lambda v: min(2000000000, (v + 1) * 1000000)
 
-        def corrupt2(ev):
-            for e in ev:
-                if e["e"] == "DetInt":
-                    e["det"] += 1
-                    return True
-            return False
-        trace.binding_selftest(ctx, "TraceLinAlg", "Trace_LinAlg_prop.cfg", [e for e in blocks[0] if e["e"] in ("Reset", "Mat", "DetInt")][:200], corrupt2, "binding_detint")
+    def bump_cell(M):
+        M = [list(r) for r in M]
+        M[0][0] += 1
+        return M
+    tests = [
+        ("binding_inv", "Inv", "r", big, None), ("binding_invint", "InvInt", "inv", bump_cell, None), ("binding_invint_input", "InvInt", "A", bump_cell, None),
+        ("binding_det", "Det", "r", big, None), ("binding_detint", "DetInt", "det", lambda v: v + 1, None), ("binding_detint_ok", "DetInt", "ok", lambda v: 0, None),
+        ("binding_detmul", "DetMul", "r", big, None), ("binding_detmulint", "DetMulInt", "dp", lambda v: v + 1, None), ("binding_detmulint_db", "DetMulInt", "db", lambda v: v + 1, None),
+        ("binding_solve_rb", "Solve", "rb", big, None), ("binding_solve_rf", "Solve", "rf", lambda v: 2000000000, None),
+        ("binding_ols", "Ols", "r", lambda v: 2000000000, None), ("binding_penrose", "Penrose", "r3", lambda v: 2000000000, None),
+        ("binding_eig", "Eig", "r", big, None), ("binding_eig_nz", "Eig", "nz", lambda v: 0, None),
+        ("binding_svd_recon", "Svd", "recon", big, None), ("binding_svd_sv", "Svd", "sv", big, None), ("binding_svd_sig", "Svd", "sig", lambda v: 0, None), ("binding_svd_shp", "Svd", "shp", lambda v: 0, None),
+        ("binding_mat_cond", "Mat", "cond", lambda v: 1000001, lambda e: e["q"] == 1), ("binding_mat_size", "Mat", "m", lambda v: 13, None),
+    ]
+    impl_tests = [("binding_impl_eig_trace", "Eig", "tr", big), ("binding_impl_svd_orth", "Svd", "orth", big), ("binding_impl_svd_dims", "Svd", "dims", lambda v: [v[0], v[1] + 1, v[2] + 1, v[3], v[4], v[5]])]
+
+    def run_one(t):
+        label, kind, field, fn, pred = t
+        pred = pred or (lambda e: True)
+        sub = _Sub(ctx)
+        trace.binding_selftest(sub, "TraceLinAlg", "Trace_LinAlg_prop.cfg", window(kind, pred), setter(kind, field, fn, pred), label)
+        return sub
+
+    def run_impl(t):
+        # Impl-layer fields: rejected with the Impl layer on, ACCEPTED by the Prop layer (so a refactoring there is SPEC-DRIFT, not an alarm)
+        label, kind, field, fn = t
+        sub = _Sub(ctx)
+        w = window(kind)
+        trace.binding_selftest(sub, "TraceLinAlg", "Trace_LinAlg.cfg", w, setter(kind, field, fn), label)
+        import copy
+        ev = copy.deepcopy(w)
+        setter(kind, field, fn)(ev)
+        ok, n, r = tlc.validate_trace("TraceLinAlg", "Trace_LinAlg_prop.cfg", ev)
+        if not ok:
+            raise InfraError("%s: an implementation-layer field is judged by the property layer too" % label)
+        sub.steps[label + "_prop_accepts"] = True
+        return sub
+    if ctx.quick:
+        # one per new / changed event kind; the thorough tier corrupts every judged field
+        keep = ("binding_invint_input", "binding_detint", "binding_detmulint", "binding_solve_rf", "binding_eig", "binding_svd_sv", "binding_mat_cond")
+        tests = [t for t in tests if t[0] in keep]
+        impl_tests = impl_tests[1:2]
+    with ThreadPoolExecutor(4) as ex:
+        for sub in list(ex.map(run_one, tests)) + list(ex.map(run_impl, impl_tests)):
+            sub.merge()
+    ctx.steps["binding_selftests"] = len(tests) + len(impl_tests)
 
 
 class _Sub:
@@ -333,7 +582,7 @@ class _Sub:
 
     def __init__(self, ctx):
         self.ctx = ctx
-        self.tlc, self.drifts, self.notes = [], [], []
+        self.tlc, self.drifts, self.notes, self.steps = [], [], [], {}
 
     def add_tlc(self, r, label=None):
         self.tlc.append((r, label))
@@ -351,16 +600,18 @@ class _Sub:
             self.ctx.spec_drift(w)
         for m in self.notes:
             self.ctx.note(m)
+        self.ctx.steps.update(self.steps)
 
 
 def run(ctx):
     ctx.assumptions += [
-        "TLC and its CommunityModules evaluate the rational arithmetic of Rat.tla/LinAlg.tla exactly (32-bit overflow raises an error, never wraps)",
-        "replay scope (model_checking part): all 1x1 and 2x2 over -2..2, all 3x3 over {0,1}, all 3x3/4x4 permutation, unit triangular 0/1 and permutation x unit-triangular 0/1 matrices%s; each at scale 1 and 2^-14; comparison in double by the C driver with tolerance 1e-9*cond (cond from the exact inverse)" % ("" if ctx.quick else ", all 262,144 3x3 over -1..2 (16 residue classes)"),
-        "EXPLORATION part (EVectEval, SVD, SVDlapack and all sizes 5..12): sampled matrices; the residuals of the defining equations are computed by the harness in double precision and only their quantised values and the cross-checks on integer cases are decided by TLC",
-        "bounds: TolAlg 1e-8 relative to |A|; inverse and forward solve error scaled by max(1, cond/1e2); least squares and Penrose residuals by max(1, cond^2/1e4) with cond <= 1e3; determinant compared with the product of dgetrf pivots relative to prod_i |row_i|_1 (a-priori error scale of the cofactor expansion)",
-        "condition numbers and reference determinants come from LAPACK dgesdd/dgetrf called directly by the harness; matrices with cond > 1e6 are dropped and counted, not judged",
-        "each library call of the exploration part runs in a forked child: a sanitizer abort, signal or watchdog is a Crash event attributed to that call",
+        "TLC and its CommunityModules evaluate the rational / integer arithmetic of Rat.tla/LinAlg.tla exactly (32-bit overflow raises an error, never wraps; the harness only emits integer events whose Bareiss intermediates stay below 1e9)",
+        "replay scope (model_checking part): all 1x1 and 2x2 over -2..2, all 3x3 over {0,1}, all 3x3/4x4 permutation, unit triangular 0/1 and permutation x unit-triangular 0/1 matrices, 3x3 diagonal over {-2,-1,1,2,3}, 3x3 L D L' and 4x4 L L' SPD, 3x3 triangular with diagonal in {-1,2}, all symmetric 3x3 over -1..1, one residue class (of 4) of the 4x4 diagonal and 5x5 permutation matrices%s; each at scale 1 and 2^-14, every third at 2^-34 and 2^30, every third at one of 0.1, 1/3, 1e-6, 1e6; comparison in double by the C driver with tolerance 1e-9*cond (cond from the exact inverse)" % ("" if ctx.quick else " - thorough: every residue class, and all 262,144 3x3 over -1..2 (16 residue classes)"),
+        "LEDGER part (EVectEval, SVD, SVDlapack and all sizes 6..12): stratified generated matrices; the residuals of the defining equations are computed by the harness in double precision and only their quantised values and the exact integer cross-checks are decided by TLC",
+        "bounds: TolAlg 1e-8 relative to |A| (hence identical at every scale); inverse and forward solve error scaled by max(1, cond/1e2); least squares and Penrose residuals by max(1, cond^2/1e4) with cond <= 1e3; determinant compared with the product of dgetrf pivots relative to prod_i |row_i|_1 (a-priori error scale of the cofactor expansion); singular values against dgesvd relative to sigma_max",
+        "condition numbers, singular values and reference determinants come from LAPACK dgesvd/dgetrf called directly by the harness; matrices with cond > 1e6 are dropped and counted, not judged",
+        "each block of the ledger runs in a forked child that publishes the call it is executing: a sanitizer abort, signal or watchdog is a Crash event attributed to that call, the block is resumed after it",
+        "an output object that is already sized and holds other numbers (or the previous call's result) is an admissible argument: every routine resizes / overwrites its outputs itself",
     ]
     rd = tlc.rundir()
     try:
@@ -369,8 +620,8 @@ def run(ctx):
         _run_validate(ctx, rd, lib)
         ctx.cov["rule"] = ("replay: a case is one enumerated matrix run through the six routines at two scales; distinct key = (family, n, singular?, no-exchange "
                            "elimination defined?, pre-pass elimination defined?, leading zero); non-trivial = a pivot is 0 without exchange, or singular.  "
-                           "exploration: a case is one generated matrix; key = (class, rows, cols, cond decade, leading zero); non-trivial = leading zero, "
-                           "rectangular, permutation / zero-leading-minor / triangular class")
+                           "ledger: a case is one generated matrix; key = (class, rows, cols, cond decade, leading zero, scale mode, history?); non-trivial = leading zero, "
+                           "rectangular, permutation / zero-leading-minor / triangular / repeated-eigenvalue class, history block, scale 1e-6 / 1e6")
         ctx.cov["exhaustive"] = True
     finally:
         shutil.rmtree(rd, ignore_errors=True)
@@ -388,8 +639,8 @@ def replay(ctx, body):
             ctx.case(("replay2", body.get("signature")), True)
             ctx.sample(case["case"])
             ctx.note("replayed 1 matrix: %d failed comparisons" % len(fails))
-        elif case.get("kind") == "trace":
-            _run_validate(ctx, rd, lib, only=(case["seed"], case["nmat"], case.get("id", 0)))
+        elif case.get("kind") == "trace" and "item" in case:
+            _run_validate(ctx, rd, lib, only=(case["seed"], case.get("tier", 0), case["item"]))
             ctx.case(("replay2", body.get("signature")), True)
         else:
             run(ctx)
